@@ -26,6 +26,7 @@
 #include "vector.h"
 #include "matrix.h"
 #include "scientificinfo.h"
+#include "verifhooks.h"
 
 void NewPCAModel(PCAMODEL** m)
 {
@@ -299,6 +300,10 @@ void PCA(matrix *mx, int scaling, size_t npc, PCAMODEL* model, ssignal *s)
         puts("....................");
         #endif
 
+        #ifdef LIBSCIENTIFIC_VERIF
+        if(libsci_verif_tick_hook != NULL)
+          libsci_verif_tick_hook(0, pc, calcConvergence(t, t_old));
+        #endif
         if(calcConvergence(t, t_old) < PCACONVERGENCE){
           /* copy the loadings and score to the output data matrix */
           for(i = 0; i < t->size; i++){
